@@ -112,7 +112,7 @@ def handle (fn : String) : RM (Option (List Float)) := do
     return some (globalDamperForce c u ++ [0])
   | "uniformGravity" =>
     let g ← rV3; let z ← rF; let nb ← rN; let bs ← rList nb (rGBody false)
-    return some ((uniformGravityForce g bs).flatMap spfl ++ [uniformGravityPE g z bs])
+    return some ((uniformGravityForce g bs).flatMap spfl ++ [uniformGravityPE g (Float.sqrt (dot g g)) z bs])
   | "gravity" =>
     let d ← rV3; let g ← rF; let z ← rF; let nb ← rN; let bs ← rList nb (rGBody true)
     return some ((gravityForce d g bs).flatMap spfl ++ [gravityPE d g z bs])
